@@ -73,11 +73,9 @@ func runC07(p *core.Program, r *core.Report) {
 		r.Unrecognised("R7.2", core.FuncName(logFn), "count function", p.InstrPos(countCall), "count is not produced by a library function")
 		return
 	}
-	core7 := checkCountWiring(p, r, wire)
-	if core7 == nil {
-		return
+	if core7, a, rq, l, ok := checkCountWiring(p, r, wire); ok {
+		checkCountingSchemaOn(p, r, core7, a, rq, l)
 	}
-	checkCountingSchema(p, r, core7)
 
 	// R7.5
 	eff := core.GetEff(p)
@@ -161,20 +159,34 @@ func checkLog2Split(p *core.Program, r *core.Report, f *ssa.Function) *ssa.Call 
 	return cnt
 }
 
-// checkCountWiring: R7.2 on the recipe-level count function; returns the core counting function.
-func checkCountWiring(p *core.Program, r *core.Report, f *ssa.Function) *ssa.Function {
+// checkCountWiring: R7.2 on the recipe-level count function; returns the function
+// holding the counting schema and the values that play allowed/required/length
+// in it: the parameters of count(allowed, required, length) when the recipe-level
+// function calls one, or — when the counting is written (or expanded) in the
+// recipe-level function itself — the two families united for the universe and
+// the exponent.
+func checkCountWiring(p *core.Program, r *core.Report, f *ssa.Function) (*ssa.Function, ssa.Value, ssa.Value, ssa.Value, bool) {
 	name := core.FuncName(f)
 	rets := core.Returns(f)
 	if len(rets) != 1 {
 		r.Unrecognised("R7.2", name, "single return", p.Pos(f.Pos()), "")
-		return nil
+		return nil, nil, nil, nil, false
 	}
+	var allowed, required, length ssa.Value
+	var callee *ssa.Function
+	var at ssa.Instruction = rets[0]
 	c, ok := rets[0].Results[0].(*ssa.Call)
-	if !ok || len(c.Call.Args) != 3 || core.StaticCallee(c) == nil {
+	if ok && len(c.Call.Args) == 3 && core.StaticCallee(c) != nil {
+		allowed, required, length = c.Call.Args[0], c.Call.Args[1], c.Call.Args[2]
+		callee = core.StaticCallee(c)
+		at = c
+	} else if a, rq, l, found := discoverCountOperands(p, f); found {
+		allowed, required, length = a, rq, l
+	} else {
 		r.Unrecognised("R7.2", name, "calls count(allowed, required, length)", p.InstrPos(rets[0]), core.Describe(rets[0].Results[0]))
-		return nil
+		return nil, nil, nil, nil, false
 	}
-	pos := p.InstrPos(c)
+	pos := p.InstrPos(at)
 	recvOK := func(v ssa.Value, path string) bool {
 		ref, ok := core.LoadPath(v)
 		if !ok {
@@ -197,7 +209,6 @@ func checkCountWiring(p *core.Program, r *core.Report, f *ssa.Function) *ssa.Fun
 		cc, ok := v.(*ssa.Call)
 		return ok && core.CallName(cc) == "github.com/deckarep/golang-set.NewSet"
 	}
-	allowed, required, length := c.Call.Args[0], c.Call.Args[1], c.Call.Args[2]
 	aAdds := addsOf(allowed)
 	okA := isNewSet(allowed) && len(aAdds) == 1
 	if okA {
@@ -266,7 +277,56 @@ func checkCountWiring(p *core.Program, r *core.Report, f *ssa.Function) *ssa.Fun
 	}
 	r.Check(okR, "R7.2", name, "required family is exactly {the set of every element of the recipe's required sets} (full sweep)", pos, "")
 	r.Check(recvOK(length, ".Length"), "R7.2", name, "length is the recipe's Length", pos, core.Describe(length))
-	return core.StaticCallee(c)
+	if callee != nil {
+		if callee.Blocks == nil || len(callee.Params) != 3 {
+			r.Unrecognised("R7.1", core.FuncName(callee), "count(allowed, required, length)", p.Pos(callee.Pos()), "unexpected signature")
+			return nil, nil, nil, nil, false
+		}
+		return callee, callee.Params[0], callee.Params[1], callee.Params[2], true
+	}
+	return f, allowed, required, length, true
+}
+
+// discoverCountOperands: in a function that does the counting itself, the two
+// families are the operands of the Union whose members are united for the
+// universe (the required one is the receiver of PowerSet), and the length is
+// the exponent of the exact power.
+func discoverCountOperands(p *core.Program, f *ssa.Function) (allowed, required, length ssa.Value, ok bool) {
+	var a, b ssa.Value
+	for _, c := range core.Calls(f) {
+		cv, isC := c.(*ssa.Call)
+		if !isC {
+			continue
+		}
+		if cv.Common().IsInvoke() && cv.Common().Method.Name() == "PowerSet" {
+			required = cv.Common().Value
+		}
+		if len(cv.Call.Args) == 1 && !cv.Common().IsInvoke() {
+			if u, isU := cv.Call.Args[0].(*ssa.Call); isU && u.Common().IsInvoke() && u.Common().Method.Name() == "Union" {
+				a, b = u.Common().Value, u.Common().Args[0]
+			}
+		}
+		if core.CallName(c) == "(*math/big.Int).Exp" && len(cv.Call.Args) == 4 {
+			if tb, isTB := cv.Call.Args[2].(*ssa.Call); isTB && len(tb.Call.Args) == 1 {
+				length = core.Strip(tb.Call.Args[0])
+				if in, isIn := tb.Call.Args[0].(*ssa.Convert); isIn {
+					length = in.X
+				}
+			}
+		}
+	}
+	if a == nil || required == nil || length == nil {
+		return nil, nil, nil, false
+	}
+	switch required {
+	case a:
+		allowed = b
+	case b:
+		allowed = a
+	default:
+		return nil, nil, nil, false
+	}
+	return allowed, required, length, true
 }
 
 // sameSliceLoad: the same SSA value, or two loads of the same field path of the same (unmodified) receiver copy.
@@ -280,14 +340,9 @@ func sameSliceLoad(a, b ssa.Value) bool {
 }
 
 // checkCountingSchema: R7.1 / R7.6 on count(allowed, required, length).
-func checkCountingSchema(p *core.Program, r *core.Report, f *ssa.Function) {
+func checkCountingSchemaOn(p *core.Program, r *core.Report, f *ssa.Function, allowed, required, length ssa.Value) {
 	name := core.FuncName(f)
 	pos := p.Pos(f.Pos())
-	if f.Blocks == nil || len(f.Params) != 3 {
-		r.Unrecognised("R7.1", name, "count(allowed, required, length)", pos, "unexpected signature")
-		return
-	}
-	allowed, required, length := f.Params[0], f.Params[1], f.Params[2]
 	// S-PART: the function (or a closure of it) calls itself
 	recursive := false
 	var visit func(g *ssa.Function)
@@ -329,7 +384,7 @@ func checkCountingSchema(p *core.Program, r *core.Report, f *ssa.Function) {
 		}
 		if u, ok := cv.Call.Args[0].(*ssa.Call); ok && u.Common().IsInvoke() && u.Common().Method.Name() == "Union" {
 			a, b := u.Common().Value, u.Common().Args[0]
-			if (a == ssa.Value(allowed) && b == ssa.Value(required)) || (a == ssa.Value(required) && b == ssa.Value(allowed)) {
+			if (a == allowed && b == required) || (a == required && b == allowed) {
 				R = cv
 				unionHelper = core.StaticCallee(cv)
 			}
@@ -354,7 +409,7 @@ func checkCountingSchema(p *core.Program, r *core.Report, f *ssa.Function) {
 			continue
 		}
 		ps, ok := it.Common().Value.(*ssa.Call)
-		if ok && ps.Common().IsInvoke() && ps.Common().Method.Name() == "PowerSet" && ps.Common().Value == ssa.Value(required) {
+		if ok && ps.Common().IsInvoke() && ps.Common().Method.Name() == "PowerSet" && ps.Common().Value == required {
 			loop, ri = l, x
 		}
 	}
@@ -483,7 +538,7 @@ func checkCountingSchema(p *core.Program, r *core.Report, f *ssa.Function) {
 	r.Check(core.IsNilConst(exp.Call.Args[3]), "R7.1", name, "the power is not reduced modulo anything", epos, "")
 	base, ok1 := bigOfInt(p, r, exp.Call.Args[1])
 	ex, ok2 := bigOfInt(p, r, exp.Call.Args[2])
-	r.Check(ok2 && ex == ssa.Value(length), "R7.1", name, "exponent is the length parameter", epos, "")
+	r.Check(ok2 && ex == length, "R7.1", name, "exponent is the length parameter", epos, "")
 	okBase := false
 	if ok1 {
 		if card, ok := base.(*ssa.Call); ok && card.Common().IsInvoke() && card.Common().Method.Name() == "Cardinality" {
